@@ -136,24 +136,25 @@ type lateMsg struct {
 }
 
 type harness struct {
-	mu        sync.Mutex // linearises views, the event log and juror deliveries
-	gmu       sync.Mutex // goroutine registry + jitter source
-	gorun     map[int64]uint32
-	injuror   map[int64]bool
-	views     map[uint32][]viewEnt
-	arb       map[uint32]bool
-	events    [][]any
-	nextRun   uint32
-	runRound  map[uint32]int
-	runSpec   map[uint32][]roundSpec
-	pending   []lateMsg
-	net       *mock.Network[req, res]
-	inner     *mock.UnaryClient[req, res]
-	used      map[uint32]bool
-	rt        time.Duration
-	jit       *rand.Rand
-	panicked  *string
-	wg        sync.WaitGroup
+	mu       sync.Mutex // linearises views, the event log and juror deliveries
+	gmu      sync.Mutex // goroutine registry + jitter source
+	gorun    map[int64]uint32
+	injuror  map[int64]bool
+	views    map[uint32][]viewEnt
+	arb      map[uint32]bool
+	events   [][]any
+	nextRun  uint32
+	runRound map[uint32]int
+	runSpec  map[uint32][]roundSpec
+	pending  []lateMsg
+	net      *mock.Network[req, res]
+	inner    *mock.UnaryClient[req, res]
+	used     map[uint32]bool
+	assigned map[uint32]uint32
+	rt       time.Duration
+	jit      *rand.Rand
+	panicked *string
+	wg       sync.WaitGroup
 }
 
 var (
@@ -180,9 +181,22 @@ func dumpGroup(g node.Group) [][]uint32 {
 	return out
 }
 
+// setView installs a scripted view. An entry with key 0 stands for "the node at this
+// address, under the key it was handed" and is dropped while that node has no key.
 func (h *harness) setView(a uint32, v []viewEnt) {
-	h.views[a] = v
-	h.logf("G", a, dumpGroup(group(v)))
+	rv := make([]viewEnt, 0, len(v))
+	for _, e := range v {
+		if e[0] == 0 {
+			k, ok := h.assigned[e[2]]
+			if !ok {
+				continue
+			}
+			e[0] = k
+		}
+		rv = append(rv, e)
+	}
+	h.views[a] = rv
+	h.logf("G", a, dumpGroup(group(rv)))
 }
 
 // candidates builds the Candidates closure of node a.
@@ -480,6 +494,7 @@ func (h *harness) runPledge(spec pledgeSpec) {
 	h.mu.Lock()
 	if err == nil {
 		h.arb[p] = true
+		h.assigned[p] = uint32(rs.Key)
 		h.logf("PE", p, true, uint32(rs.Key), ckNum(rs.ClusterKey))
 	} else {
 		h.logf("PE", p, false, 0, 0)
@@ -492,7 +507,7 @@ func runCase(c tcase) (out result) {
 	h := &harness{
 		gorun: map[int64]uint32{}, injuror: map[int64]bool{}, views: map[uint32][]viewEnt{},
 		arb: map[uint32]bool{}, runRound: map[uint32]int{}, runSpec: map[uint32][]roundSpec{},
-		used: map[uint32]bool{}, nextRun: 1,
+		used: map[uint32]bool{}, assigned: map[uint32]uint32{}, nextRun: 1,
 	}
 	h.net = mock.NewNetwork[req, res]()
 	h.inner = h.net.UnaryClient()
